@@ -236,4 +236,129 @@ theorem decimal_consts :
 theorem dom_is_min_max (d : Dec) :
     (Dec.MIN.coeff ≤ d.coeff ∧ d.coeff ≤ Dec.MAX.coeff ∧ d.nfrac ≤ Dec.DELTA.nfrac) ↔ Dom d := Kernels.dom_is_min_max d
 
+/-! ### algebraic laws
+Model-level corollaries: equalities of `Outcome` values, so the two sides also panic together (and with the same panic kind). -/
+
+/-- `x + y = y + x`, as outcomes (same value and representation, or the same panic); no domain restriction is needed -/
+theorem add_commutes (x y : Dec) : addSub false x y = addSub false y x := by
+  obtain ⟨a, p⟩ := x
+  obtain ⟨b, q⟩ := y
+  unfold addSub
+  rcases Nat.lt_trichotomy p q with h | h | h
+  · simp only [cmp_lt h, cmp_gt h, Bool.false_eq_true, if_false]
+    cases mulPowTen a (q - p) with
+    | panic k => rfl
+    | ok c => simp only [Outcome.bind_ok, Int.add_comm]
+  · subst h
+    have hc : compare p p = .eq := by simp
+    simp only [hc, Bool.false_eq_true, if_false, Int.add_comm]
+  · simp only [cmp_lt h, cmp_gt h, Bool.false_eq_true, if_false]
+    cases mulPowTen b (p - q) with
+    | panic k => rfl
+    | ok c => simp only [Outcome.bind_ok, Int.add_comm]
+
+/-- `2^127` is not a multiple of ten: scaling by at least one digit never produces `±2^127`, so negating the scaled operand
+    and scaling the negated operand overflow together -/
+private theorem fits_neg_scaled (b : Int) (k : Nat) (hk : 0 < k) :
+    fitsI128 (-(b * (10 : Int) ^ k)) = fitsI128 (b * (10 : Int) ^ k) := by
+  obtain ⟨j, rfl⟩ : ∃ j, k = j + 1 := ⟨k - 1, by omega⟩
+  have e : b * (10 : Int) ^ (j + 1) = 10 * (b * (10 : Int) ^ j) := by
+    rw [Int.pow_succ, Int.mul_comm ((10 : Int) ^ j) 10, Int.mul_left_comm]
+  rw [e]
+  generalize b * (10 : Int) ^ j = m
+  unfold fitsI128 I128_MIN I128_MAX
+  by_cases h1 : 10 * m ≤ 170141183460469231731687303715884105727 <;>
+    by_cases h2 : -170141183460469231731687303715884105728 ≤ 10 * m <;>
+    simp [h1, h2] <;> omega
+
+/-- `x - y = x + (-y)`, as outcomes (the negation of a `Dom` operand cannot overflow) -/
+theorem sub_eq_add_neg (x y : Dec) (hx : Dom x) (hy : Dom y) :
+    addSub true x y = addSub false x ⟨-y.coeff, y.nfrac⟩ := by
+  obtain ⟨a, p⟩ := x
+  obtain ⟨b, q⟩ := y
+  simp only [Dom] at hx hy
+  unfold addSub
+  simp only [if_true, Bool.false_eq_true, if_false]
+  rcases Nat.lt_trichotomy p q with h | h | h
+  · simp only [cmp_lt h]
+    cases mulPowTen a (q - p) with
+    | panic k => rfl
+    | ok c => simp only [Outcome.bind_ok, Int.sub_eq_add_neg]
+  · subst h
+    have hc : compare p p = .eq := by simp
+    simp only [hc, Int.sub_eq_add_neg]
+  · simp only [cmp_gt h]
+    rw [mulPowTen_eq b (p - q) (by omega), mulPowTen_eq (-b) (p - q) (by omega), Int.neg_mul]
+    have hf := fits_neg_scaled b (p - q) (by omega)
+    cases h1 : fitsI128 (b * (10 : Int) ^ (p - q))
+    · rw [h1] at hf
+      simp [checkedI128_none h1, checkedI128_none hf]
+    · rw [h1] at hf
+      simp only [checkedI128_some h1, checkedI128_some hf, Outcome.ofOption_some, Outcome.bind_ok, Int.sub_eq_add_neg]
+
+/-- adding a zero: the result is `x` re-expressed with `max` digits, or the overflow panic when that rescaling leaves the i128
+    range (`q - p` is the truncated subtraction: no rescaling when the zero has no more digits than `x`) -/
+theorem add_zero_general (x : Dec) (q : Nat) (hx : Dom x) (hq : q ≤ 18) :
+    addSub false x ⟨0, q⟩ = (mulPowTen x.coeff (q - x.nfrac) >>= fun c => pure ⟨c, max x.nfrac q⟩) := by
+  obtain ⟨a, p⟩ := x
+  have hf := hx.fits
+  simp only [Dom] at hx
+  simp only at hf
+  unfold addSub
+  simp only [Bool.false_eq_true, if_false]
+  rcases Nat.lt_trichotomy p q with h | h | h
+  · have hm : max p q = q := by omega
+    simp only [cmp_lt h, hm]
+    rw [mulPowTen_eq a (q - p) (by omega)]
+    cases h1 : fitsI128 (a * (10 : Int) ^ (q - p))
+    · simp [checkedI128_none h1]
+    · simp [checkedI128_some h1, coeffOrPanic]
+  · subst h
+    have hc : compare p p = .eq := by simp
+    have h1 : fitsI128 (a * (10 : Int) ^ (p - p)) = true := by simpa using hf
+    rw [mulPowTen_eq a (p - p) (by omega)]
+    simp only [hc, Int.add_zero, checkedI128_some hf, checkedI128_some h1, coeffOrPanic, Outcome.ofOption_some,
+      Outcome.bind_ok, Nat.max_self]
+    simp
+  · have hm : max p q = p := by omega
+    have hz : q - p = 0 := by omega
+    have h0 : fitsI128 (0 * (10 : Int) ^ (p - q)) = true := by simp [fitsI128, I128_MIN, I128_MAX]
+    have h1 : fitsI128 (a * (10 : Int) ^ 0) = true := by simpa using hf
+    rw [hz, mulPowTen_eq a 0 (by omega), mulPowTen_eq 0 (p - q) (by omega)]
+    simp only [cmp_gt h, hm, checkedI128_some h0, checkedI128_some h1, Outcome.ofOption_some, Outcome.bind_ok]
+    simp [checkedI128_some hf, coeffOrPanic]
+
+/-- adding a zero that has no more fractional digits than `x` is the identity (value and representation) -/
+theorem add_zero_right (x y : Dec) (hx : Dom x) (h0 : y.coeff = 0) (hq : y.nfrac ≤ x.nfrac) : addSub false x y = .ok x := by
+  obtain ⟨b, q⟩ := y
+  simp only at h0 hq
+  subst h0
+  have hf := hx.fits
+  have hq18 : q ≤ 18 := by have := hx.2.2; omega
+  rw [add_zero_general x q hx hq18]
+  have hz : q - x.nfrac = 0 := by omega
+  have hm : max x.nfrac q = x.nfrac := by omega
+  have h1 : fitsI128 (x.coeff * (10 : Int) ^ 0) = true := by simpa using hf
+  rw [hz, hm, mulPowTen_eq _ 0 (by omega), checkedI128_some h1]
+  simp
+
+/-- `0 + x` likewise (by commutativity) -/
+theorem add_zero_left (x y : Dec) (hx : Dom x) (h0 : y.coeff = 0) (hq : y.nfrac ≤ x.nfrac) : addSub false y x = .ok x := by
+  rw [add_commutes]; exact add_zero_right x y hx h0 hq
+
+/-- `x - x` is the zero with `x`'s number of fractional digits, for every `x` -/
+theorem sub_self_zero (x : Dec) : addSub true x x = .ok ⟨0, x.nfrac⟩ := by
+  have hc : compare x.nfrac x.nfrac = .eq := by simp
+  have h0 : fitsI128 0 = true := by decide
+  unfold addSub
+  simp only [hc, if_true, Int.sub_self, checkedI128_some h0, coeffOrPanic, Outcome.ofOption_some, Outcome.bind_ok,
+    Outcome.pure_eq]
+
+example : addSub false ⟨15, 1⟩ ⟨-2575, 3⟩ = .ok ⟨-1075, 3⟩ ∧ addSub false ⟨-2575, 3⟩ ⟨15, 1⟩ = .ok ⟨-1075, 3⟩ := by decide
+example : addSub false ⟨I128_MAX, 0⟩ ⟨1, 1⟩ = .panic .overflow ∧ addSub false ⟨1, 1⟩ ⟨I128_MAX, 0⟩ = .panic .overflow := by decide
+example : addSub true ⟨15, 3⟩ ⟨-25, 1⟩ = .ok ⟨2515, 3⟩ ∧ addSub false ⟨15, 3⟩ ⟨25, 1⟩ = .ok ⟨2515, 3⟩ := by decide
+example : addSub false ⟨-15, 3⟩ ⟨0, 1⟩ = .ok ⟨-15, 3⟩ ∧ addSub false ⟨-15, 1⟩ ⟨0, 3⟩ = .ok ⟨-1500, 3⟩ ∧
+    addSub false ⟨I128_MAX, 0⟩ ⟨0, 1⟩ = .panic .overflow := by decide
+example : addSub true ⟨-2575, 3⟩ ⟨-2575, 3⟩ = .ok ⟨0, 3⟩ ∧ addSub true ⟨I128_MIN, 40⟩ ⟨I128_MIN, 40⟩ = .ok ⟨0, 40⟩ := by decide
+
 end Fpdec.Props.C01
